@@ -19,6 +19,8 @@ def main():
     with open(inp) as f:
         shard = json.load(f)
     faulthandler.enable()
+    if os.environ.get("VERIF_DUMP_AFTER"):
+        faulthandler.dump_traceback_later(float(os.environ["VERIF_DUMP_AFTER"]), exit=False)
     mod = importlib.import_module(mod_name)
     env = None
     if getattr(mod, "NEEDS_PTY", True):
@@ -29,6 +31,11 @@ def main():
         kw.update(shard.get("persona_kw", {}))
         env = PtyEnv.install(Persona(**kw), *shard.get("winsize", (80, 24, 0, 0)))
         env.persona_name = pname
+        # diagnostics to the real stderr, not to the terminal under test
+        faulthandler.enable(file=sys.stderr)
+        if os.environ.get("VERIF_DUMP_AFTER"):
+            faulthandler.cancel_dump_traceback_later()
+            faulthandler.dump_traceback_later(float(os.environ["VERIF_DUMP_AFTER"]), exit=False, file=sys.stderr)
     import warnings
 
     warnings.simplefilter("ignore")
